@@ -31,7 +31,7 @@ ASSUMPTIONS = ["pvm/ref/ofwire.py states the OpenFlow 1.0.0 layouts correctly",
                "Nicira body layouts are checked for round trip and framing "
                "(header, length multiple of 8, NXM header), not field by "
                "field against an independent specification"]
-REQUIRED = ["objects", "layout_compared", "roundtrips", "table_dispatch",
+REQUIRED = ["objects", "shards_run_with_assertions_stripped", "layout_compared", "roundtrips", "table_dispatch",
             "action_lists", "stats_bodies", "nicira_objects",
             "nx_layouts_checked", "earlier_objects_rechecked",
             "objects_reused_with_new_payload",
